@@ -158,7 +158,8 @@ var specs = map[string]propSpec{
 	},
 	"C03": {
 		Units: []unitSpec{
-			{Name: "rapid-positional", Test: "TestC03Rapid", Rapid: true, QuickChecks: 50000, ThoroughChecks: 600000, QuickShards: 4, ThoroughShards: 16},
+			{Name: "rapid-positional", Test: "TestC03Rapid", Rapid: true, QuickChecks: 50000, ThoroughChecks: 600000, QuickShards: 4, ThoroughShards: 14},
+			{Name: "enum-positional-forms", Test: "TestC03Enum", QuickShards: 2, ThoroughShards: 2},
 		},
 		Assumptions: refAssumptions("positional predicates only where C03 claims them: first predicate of child-axis steps, or [n] on a parenthesised flat path; integers 1..6"),
 	},
